@@ -60,7 +60,9 @@ def make_vals(tag, n, pal, nones=()):
 # ------------------------------------------------------------------------------ C07
 def replay_index(cases, F, mon):
     executed = 0
-    tags = ["int", "str", "float", "date", "object"]
+    # "mixf" / "mixi": a float vector that also holds Python ints, an int vector that also holds bools - the selected
+    # part alone would infer another kind, but indexing keeps the vector's kind
+    tags = ["int", "str", "float", "date", "object", "mixf", "mixi"]
     for n_case, c in enumerate(cases):
         n_case = c.get("_n", n_case)
         tag = tags[n_case % len(tags)]
@@ -69,6 +71,10 @@ def replay_index(cases, F, mon):
         nones = {2} if (n_case // 15) % 2 and n >= 2 else set()
         if tag == "object":
             vals = [[1, "a", 2.5, None, (1, 2)][i % 5] for i in range(n)]
+        elif tag == "mixf":
+            vals = [None if (i + 1) in nones else (i + 1 if (i + pal) % 2 == 0 else i + 1.5) for i in range(n)]
+        elif tag == "mixi":
+            vals = [None if (i + 1) in nones else (bool(i % 3) if (i + pal) % 2 == 0 else i + 5) for i in range(n)]
         else:
             vals = make_vals(tag, n, pal, nones)
         v = Vector(list(vals), name="nm")
@@ -156,6 +162,8 @@ def replay_index(cases, F, mon):
                         F.add("mask", c, list(r), exp, form=form, **info)
                     if r.name != "nm":
                         F.add("names", c, r.name, "nm", op="mask", **info)
+                    if v.schema() is not None and r.schema() is not None and r.schema().kind is not v.schema().kind:
+                        F.add("slice_kind", c, str(r.schema()), str(v.schema()), op="mask", form=form, **info)
                     mon.see(r, "v[mask]")
                 if t is not None and c["ok"]:
                     st, r, ex = attempt(lambda: t[key])
@@ -166,6 +174,8 @@ def replay_index(cases, F, mon):
                     elif isinstance(r, Table):
                         if not views_equal(table_rows(r), exprows):
                             F.add("table_rows", c, table_rows(r), exprows, form=form, **info)
+                        elif [x.schema().kind for x in r.cols() if x.schema() is not None] != [x.schema().kind for x in t.cols() if x.schema() is not None]:
+                            F.add("slice_kind", c, [str(x.schema()) for x in r.cols()], [str(x.schema()) for x in t.cols()], op="t[mask]", form=form, **info)
                     elif exprows:
                         F.add("table_rows", c, "not a Table", exprows, form=form, **info)
         elif c["suite"] == "int":
@@ -888,7 +898,8 @@ def fplaws(out_path):
     from datetime import date as _d
     inf = float("inf")
     groups = {"float": [0.5, 2.5, -0.0, inf, -inf, float("nan"), -1.0, -2.0, 1e300, None],
-              "int": [0, 1, -1, -2, -3, 2 ** 61 - 1, 2 ** 61, 10 ** 30, None],
+              "int": [0, 1, -1, -2, -3, 2, 3, 2 ** 61 - 1, 2 ** 61, 10 ** 30, -(10 ** 30), None],
+              "complex": [1j, -1j, 3 + 4j, -3 - 4j, 3 - 4j, 0j, None],
               "str": ["a", "", "b", "A", " a", None],
               "bool": [True, False, None],
               "date": [_d(2020, 1, 1), _d(2020, 1, 2), _d(1, 1, 1), None]}
